@@ -763,3 +763,24 @@ def chain_inputs(n: int):
             t += word[i + 1]
         out.append(t)
     return out
+
+
+# ---------------------------------------------------------------- modifier trees (C04, C06)
+
+def modifier_tree(mods, ws_silent: bool = True):
+    """a record / list / item / leaf grammar under an assignment of modifiers to its five rules: which inner pairs
+    an atomic rule keeps (those under a nested $ or ! rule, in input order, however many hidden levels lie between)
+    and where trivia is accepted is decided by the modifiers on the whole path"""
+    m0, m1, m2, m3, m4 = mods
+    rules = {
+        "r0": (m0, ("seq", [("str", "<"), ("id", "r1", None), ("str", ">")])),
+        "r1": (m1, ("seq", [("id", "r2", None), ("rep", ("group", ("seq", [("str", ","), ("id", "r2", None)]), None))])),
+        "r2": (m2, ("choice", [("id", "r3", None), ("id", "r4", None)])),
+        "r3": (m3, ("rep1", ("range", "a", "c"))),
+        "r4": (m4, ("seq", [("range", "0", "9"), ("rep", ("range", "0", "9"))])),
+        "WHITESPACE": ("_" if ws_silent else "", ("str", " ")),
+    }
+    return rules
+
+
+TREE_INPUTS = ["<ab,12>", "<a>", "<1,b,22>", "< ab , 12 >", "<ab ,12, c>", "<a b,1 2>", "<ab,12", "<,>", "<ab,,12>", "<c,b,a,0>"]
